@@ -137,6 +137,23 @@ def opMarshal : Handler := fun j => do
     ("k", ratListJson a.k), ("sub", natListJson a.sub), ("sto", intListJson a.sto), ("D", ratListJson a.D),
     ("vol", ratListJson a.vol)])]
 
+/-- `{"op":"marshal_dxdt","sys":…,"U":{…},"edge":[h per cell, in U],"x":[numbers in U, species-major]}` →
+`Compute_dxdt` of the Euler engine on the DECODED marshalled arrays (`engOfArraysGrid/Graph (pyMarshal sys U)`), species-major -/
+def opMarshalDxdt : Handler := fun j => do
+  let sys ← getPySys (← field j "sys")
+  let u ← getSys (← field j "U")
+  let hs := (← getRatList (← field j "edge")).toArray
+  let xa := (← getRatList (← field j "x")).toArray
+  let n := sys.space.size
+  let x : State := ⟨fun i s => xa.getD (s * n + i) 0⟩
+  let chem : Nat → Nat → Bool := fun i s => pyGetChemostat sys s i != 0
+  let a := pyMarshal sys u
+  let e : EngIn := match sys.space with
+    | .grid g _ _ _ => engOfArraysGrid a sys.space.envOf g (hs.getD 0 0) chem
+    | .graph _ edges => engOfArraysGraph a sys.space.envOf (edgesInU u edges) (fun i => hs.getD i 0) chem
+  return Json.mkObj [("ok", ratListJson ((List.range sys.nSpecies).flatMap fun s =>
+    (List.range n).map fun i => eulerDxdt e x i s))]
+
 /-! ### Spec -/
 
 def getPhys (j : Json) : Except String Spec.Phys := do
@@ -182,6 +199,7 @@ def opSpecRate : Handler := fun j => do
 
 def kineticsOps : List (String × Handler) :=
   [("dstate", opDstate), ("reaction_rates", opReactionRates), ("diffusion_rates", opDiffusionRates),
-   ("dxdtf", opDxdtf), ("apply_reaction", opApplyReaction), ("marshal", opMarshal), ("spec_rate", opSpecRate)]
+   ("dxdtf", opDxdtf), ("apply_reaction", opApplyReaction), ("marshal", opMarshal), ("marshal_dxdt", opMarshalDxdt),
+   ("spec_rate", opSpecRate)]
 
 end Strengths.Driver
